@@ -411,7 +411,8 @@ def monitor_oms(res, case, eq, ch, pre, post, p0, pref, pref_total, st):
                 elif not (would > limit - TOL and p_in + Gn >= limit - TOL):
                     # open finding gain-mode-in-voa-saturation: the gain-mode check of the code (operator type_variety)
                     # leaves in_voa out of the output estimate, so the gain is cut until p_in + in_voa + gain = p_max
-                    f14 = bool(iv) and not auto_sel and would > limit - TOL and abs((p_in + iv + Gn) - limit) <= TOL
+                    # (also when the operator's gain would not saturate at all)
+                    f14 = bool(iv) and not auto_sel and abs((p_in + iv + Gn) - limit) <= TOL
                     res.fail(f'user gain: {r["uid"]} gain {Gn:.6f} instead of the operator value {u_gain}: with the '
                              f'operator value the output would be {would:.6f} dBm, with the reduced gain it is '
                              f'{p_in + Gn:.6f} dBm, limit {limit:.6f} dBm (in_voa {iv}): reduced more than needed',
